@@ -3476,6 +3476,12 @@ func (t *Topic) evictUser(uid types.Uid, unsub bool, skip string) {
 			}
 		}
 	}
+
+	// If the evicted sessions were the last ones, start the kill timer: otherwise the topic stays
+	// loaded forever and its subscribers are never told that it went offline.
+	if len(t.sessions) == 0 && t.cat != types.TopicCatSys && t.killTimer != nil {
+		t.killTimer.Reset(idleMasterTopicTimeout)
+	}
 }
 
 // User's subscription to a topic has changed, send presence notifications.
